@@ -76,6 +76,7 @@ def run(ck):
     ck.rule("C02.R3", "per-thread default is written only by set_default/guard drop, never from get_global()", floor=3)
     ck.rule("C02.R4", "global default: single CAS-guarded write, published before INITIALIZED, guarded read", floor=5)
     ck.rule("C02.R5", "EXISTS set by both install paths", floor=2)
+    ck.rule("C02.R9", "callsites hit before the global default existed are re-judged by it once it is installed: where registration consults the global default (no_std), set_global_default re-evaluates after publishing (as C01.R14)", floor=1)
     ck.rule("C02.R8", "what a callback may do does not depend on other threads' scopes: the fast and the slow path of get_default treat nested use alike", floor=2)
     ck.rule("C02.R7", "the count of live scopes cannot wrap: SCOPED_COUNT is at least pointer-sized", floor=2)
     ck.rule("C02.R6", "the re-entrancy flag taken by get_default/get_current is given back on every exit, unwinding included (RAII)", floor=3)
@@ -96,6 +97,8 @@ def run(ck):
             counter_width(ck, F, "C02.R7", ("tracing_core::dispatch::",))
             r8(ck, F)
     ck.tag = ""
+    from rules import C01
+    C01.install_reevaluates(ck, rid="C02.R9")
 
 
 # ---------------------------------------------------------------------- R1
